@@ -181,7 +181,7 @@ def crash_oracle(case, obs):
                 cstreams = {tuple(p) for p in before["hosts"][1]["streams"]}
                 sports = {p[2]: p for p in cstreams}
                 cobjs = [d for d in before["hosts"][1]["objs"] if d[0] == "stream"]
-                for port, task in FC.PEER_TASK.items():
+                for (task, port, style) in FC.PEER_TASKS:
                     lp = FC.task_lport(obs, task, before["hosts"][1]["starts"] - 1)
                     est = [d for d in cobjs if d[3] == port and d[1] == lp]
                     sside = [p for p in before["hosts"][0]["streams"] if p[0] == port and p[2] == lp]
@@ -190,10 +190,10 @@ def crash_oracle(case, obs):
                         # (a writer whose data was still in flight at the crash is answered by the crashed host's
                         # stack one latency later, fix 2342d63: allow for the round trip)
                         in_flight = task == "C" and FC.c_data_in_flight(case, obs, before["hosts"][1]["starts"] - 1, crash_time)
-                        bound = slack2 if in_flight else slack
+                        bound = slack2 if (in_flight or task == "W") else slack
                         if e is None:
-                            out.append(("event %d (%s n0): client task %s was connected to port %d and is still blocked at the end of the run%s" % (
-                                k, name, task, port, " (its data was in flight at the crash: the crashed host must answer it with a reset)" if in_flight else ""), None))
+                            out.append(("event %d (%s n0): client task %s (%s) was connected to port %d and is still blocked at the end of the run%s" % (
+                                k, name, task, style, port, " (its data was in flight at the crash: the crashed host must answer it with a reset)" if in_flight else ""), None))
                         elif e[2] > k and steps_between(evs, k, e[2]) > bound:
                             out.append(("event %d (%s n0): client task %s was unblocked only %d steps later" % (k, name, task, steps_between(evs, k, e[2])), None))
                         elif e[2] > k and e[0] not in ("eof", "UnexpectedEof", "ConnectionReset", "BrokenPipe"):
@@ -245,23 +245,23 @@ def crash_oracle(case, obs):
             if not later_server_fault and steps_after >= slack + 3:
                 sinc = before["hosts"][0]["starts"] - 1
                 cstreams = before["hosts"][1]["streams"]
-                # the writer parked on the full window of the client that never reads (port 9005)
-                for x in log:
-                    if not (x[0] == 0 and x[1] == sinc and x[2] == "push" and x[3] == "accepted" and x[6] < k):
+                # the writers parked on the full window of a client that never reads (ports 9005 and 9007)
+                for (pname, pport, pstyle) in FC.PUSH_TASKS:
+                  for x in log:
+                    if not (x[0] == 0 and x[1] == sinc and x[2] == pname and x[3] == "accepted" and x[6] < k):
                         continue
                     rp = x[4]
-                    if [9005, 1, rp] not in before["hosts"][0]["streams"] or [rp, 0, 9005] not in cstreams:
+                    if [pport, 1, rp] not in before["hosts"][0]["streams"] or [rp, 0, pport] not in cstreams:
                         continue
                     in_flight = crash_time < FC.delivered_by(case, x[7])
-                    end = [y for y in log if y[0] == 0 and y[1] == sinc and y[2] == "push" and y[3] == "end" and y[5] == rp]
-                    klass = None
+                    end = [y for y in log if y[0] == 0 and y[1] == sinc and y[2] == pname and y[3] == "end" and y[5] == rp]
                     if not end:
-                        out.append(("event %d (%s n1): the server task writing to the stream accepted from n1 port %d (a client that never "
-                                    "reads, window of %d segments) is still blocked in write_all at the end of the run" % (
-                                        k, name, rp, case["cfg"].get("tcp_capacity", 64)), klass))
+                        out.append(("event %d (%s n1): the server task writing (%s) to the stream accepted from n1 port %d (a client that never "
+                                    "reads, window of %d segments) is still blocked at the end of the run" % (
+                                        k, name, pstyle, rp, case["cfg"].get("tcp_capacity", 64)), None))
                     elif end[0][6] > k and steps_between(evs, k, end[0][6]) > (slack2 if in_flight else slack + 1):
-                        out.append(("event %d (%s n1): the server task writing to the stream accepted from n1 port %d was unblocked only %d steps later" % (
-                            k, name, rp, steps_between(evs, k, end[0][6])), klass))
+                        out.append(("event %d (%s n1): the server task writing (%s) to the stream accepted from n1 port %d was unblocked only %d steps later" % (
+                            k, name, pstyle, rp, steps_between(evs, k, end[0][6])), None))
                     elif end[0][4] not in ("BrokenPipe", "ConnectionReset"):
                         out.append(("event %d (%s n1): the server task writing to n1 port %d ended with %s" % (k, name, rp, end[0][4]), None))
                 # the readers on accepted streams (echo connection, reader half of the split stream) see the end
